@@ -349,4 +349,5 @@ def rules(tier):
     from . import precision
     return [rule_guard, rule_n, rule_project, rule_memorder, rule_overwrite, rule_stale, rule_ratio_paths, c01.rule_width,
             carry.make_clone_rule("R-C18-clone", {"linfa_reduction"}, 4), carry.make_setter_rule("R-C18-override", {"linfa_reduction"}, 2), rule_rowlocal,
-            precision.make_rule("R-C18-precision", lambda f: f["d"]["krate"] == "linfa_reduction" and "pca" in fn_file(f), 9, "linfa-reduction pca")]
+            precision.make_rule("R-C18-precision", lambda f: f["d"]["krate"] == "linfa_reduction" and "pca" in fn_file(f), 9, "linfa-reduction pca"),
+            carry.make_accessor_rule("R-C18-accessor", {"linfa_reduction"}, 4), carry.make_ctor_rule("R-C18-ctor", {"linfa_reduction"}, 2)]
